@@ -68,6 +68,8 @@ def line(req):
     if op == 'prepare':
         _, P, W, ps = req
         return 'prepare %s %s %s' % (core.names_line(P), core.names_line(W), core.params_line(ps))
+    if op == 'retrievebound':
+        return 'retrievebound %s' % core.sig_line(req[1])
     if op == 'preparesig':      # the wrapper object is callable 7, the function callable 1
         P, W, ps = req[1:4]
         return 'preparesig %s %s 1 7 %s' % (core.names_line(P), core.names_line(W), core.sig_line(core.D(ps, fn=1)))
